@@ -22,6 +22,36 @@ class ContractError(Exception):
     """the contract does not bind to the current code (renamed local, missing loop ...): undecided"""
 
 
+def guarded_check(solver, ms):
+    """solver.check() with a hard wall-clock stop (z3's own timeout is not honoured inside some sequence-solver loops):
+    a watchdog thread interrupts the context; an interrupted check is `unknown`"""
+    import threading
+    timer = threading.Timer(ms / 1000.0 * 1.5 + 2.0, solver.ctx.interrupt)
+    timer.daemon = True
+    timer.start()
+    try:
+        return solver.check()
+    except z3.Z3Exception:
+        return z3.unknown
+    finally:
+        timer.cancel()
+
+
+class _NullSolver:
+    """stands in for the path solver while a throw-away evaluation runs: nothing is asserted, nothing is decided"""
+    def add(self, *a):
+        pass
+
+    def push(self):
+        pass
+
+    def pop(self, *a):
+        pass
+
+    def check(self, *a):
+        return z3.unknown
+
+
 class PathEnd(Exception):
     """this path stops here (infeasible, or cut after a loop body)"""
 
@@ -195,7 +225,7 @@ class Path:
     def feasible(self, c):
         self.solver.push()
         self.solver.add(c)
-        r = self.solver.check()
+        r = guarded_check(self.solver, 2000) if not isinstance(self.solver, _NullSolver) else z3.unknown
         self.solver.pop()
         return r != z3.unsat
 
@@ -206,7 +236,7 @@ class Path:
             return True
         self.solver.push()
         self.solver.add(z3.Not(c))
-        r = self.solver.check()
+        r = guarded_check(self.solver, 2000) if not isinstance(self.solver, _NullSolver) else z3.unknown
         self.solver.pop()
         return r == z3.unsat
 
@@ -424,7 +454,8 @@ class Path:
         n, rule = h.rule
         istar = z3.Const("i*", I)
         saved_pc = len(self.pc)
-        self.solver.push()
+        real_solver = self.solver
+        self.solver = _NullSolver()     # facts stated while reading the element at the placeholder index are discarded
         self.pure += 1              # element expressions are read totally here (their side conditions are checked on access)
         self.code_eval = getattr(self, "code_eval", 0) + 1      # ... but names resolve as in the code, not as spec functions
         try:
@@ -432,7 +463,7 @@ class Path:
         finally:
             self.code_eval -= 1
             self.pure -= 1
-            self.solver.pop()
+            self.solver = real_solver
             del self.pc[saved_pc:]
         if "i*" not in elem.sexpr():
             # constant element: the sequence is a function of (element, length) -- equal lengths give equal sequences by congruence
@@ -630,6 +661,10 @@ class Path:
                         res = z3.If(kt == key_of_const(k), val, res)
             return VBox(res)
         if h.sym is None:
+            if self.pure:
+                # specification context: the value under an absent key is unspecified (a fresh unknown), so a clause that
+                # depends on it cannot be proved, and a guarded clause (implies(k in d, d[k] == ..)) is unaffected
+                return VBox(self.fresh("absent", PV))
             raise Unsupported("dict_get of absent key")
         kt = key_of_const(ck)
         val = VBox(z3.Select(h.sym[2], kt))
